@@ -28,7 +28,7 @@ RULE = "case = (variant, requested size, parameters, history seed) or stability 
 ASSUMPTIONS = ["reads are .scrn, repr(), str(), copy.deepcopy(obj).scrn"]
 REQUIRED = ["infinitephasescreen.py:PhaseScreen.add_row", "infinitephasescreen.py:PhaseScreen.scrn", "infinitephasescreen.py:PhaseScreenKolmogorov.__repr__",
             "infinitephasescreen.py:find_allowed_size"]
-REQUIRED_COUNTERS = ["ops:add_row", "ops:read", "ops:repr", "ops:global_rng", "shift_checks", "predicted_rows", "stability_configs", "histories_longer_than_buffer"]
+REQUIRED_COUNTERS = ["innovations_recovered", "ops:add_row", "ops:read", "ops:repr", "ops:global_rng", "shift_checks", "predicted_rows", "stability_configs", "histories_longer_than_buffer"]
 TIMEOUT = {"quick": 900, "thorough": 7200}
 EPS32 = float(np.finfo(np.float32).eps)
 
@@ -52,7 +52,7 @@ def attr_digest(obj, skip=("_scrn", "_R", "random_seed")):
     return out
 
 
-def history(ctx, aotools, variant, nreq, ps, r0, L0, extra, rng, n_ops):
+def history(ctx, aotools, variant, nreq, ps, r0, L0, extra, rng, n_ops, all_add=False):
     from scipy import linalg
     wit = {"variant": variant, "requested_size": nreq, "pixel_scale": ps, "r0": r0, "L0": L0, "columns_or_length_factor": extra, "ops": n_ops}
     try:
@@ -76,7 +76,14 @@ def history(ctx, aotools, variant, nreq, ps, r0, L0, extra, rng, n_ops):
         ctx.check(nint >= nreq, "internal_size_smaller_than_requested", "internal %d < requested %d" % (nint, nreq), wit)
     n_add = 0
     base_attrs = attr_digest(scr)
-    ops = rng.choice(["add", "add", "add", "read", "repr", "deep", "glob"], n_ops)
+    used = []
+    n_init_draws = len(rec.draws)
+    Bpinv = None
+    if M is not None:
+        sv = np.linalg.svd(B, compute_uv=False)
+        if sv.min() > 1e-9 * sv.max():
+            Bpinv = np.linalg.pinv(B)
+    ops = rng.choice(["add", "add", "add", "read", "repr", "deep", "glob"], n_ops) if not all_add else np.array(["add"] * n_ops)
     for op in ops:
         before_int = scr._scrn.copy()
         before_exp = np.array(scr.scrn, copy=True)
@@ -96,14 +103,26 @@ def history(ctx, aotools, variant, nreq, ps, r0, L0, extra, rng, n_ops):
                       "after add_row #%d the old rows are not the previous screen shifted down by exactly one" % n_add, wit)
             ctx.check(np.array_equal(scr._scrn[1:], before_int[:-1]), "internal_shift_by_one_row", "working array not shifted by one row at step %d" % n_add, wit)
             ctx.check(ret is not None and np.array_equal(np.asarray(ret), exp), "add_row_return_value", "add_row() does not return the new exposed screen", wit)
-            ctx.check(len(rec.draws) == nd + 1 and int(np.prod(rec.draws[-1]["size"])) == nint, "draws_per_row",
-                      "add_row consumed %d draw requests" % (len(rec.draws) - nd), wit)
-            if M is not None and len(rec.draws) == nd + 1:
-                ctx.count("predicted_rows")
-                b = np.asarray(rec.draws[-1]["value"], float).ravel()
-                want = M @ before_int.ravel() + B @ b
+            one_per_row = len(rec.draws) == nd + 1 and rec.draws[-1]["size"] is not None and int(np.prod(rec.draws[-1]["size"])) == nint
+            if not one_per_row:
+                ctx.count("rows_with_another_draw_pattern(not judged)")      # e.g. innovations drawn in blocks: legal
+            if M is not None:
                 sc = float(np.abs(before_int).max()) * float(np.abs(M).sum(axis=1).max()) + 5 * float(np.abs(B).sum(axis=1).max()) + 1e-300
-                ctx.close("new_row_is_predicted", scr._scrn[0], want, 1e-10 * sc, "new_row_not_predicted:" + variant, wit, scale=sc)
+                if one_per_row:
+                    ctx.count("predicted_rows")
+                    b = np.asarray(rec.draws[-1]["value"], float).ravel()
+                    want = M @ before_int.ravel() + B @ b
+                    ctx.close("new_row_is_predicted", scr._scrn[0], want, 1e-10 * sc, "new_row_not_predicted:" + variant, wit, scale=sc)
+                # the innovation actually used, recovered from the observed row: it must come from the object's own stream
+                # (standard-normal numbers the generator produced) and must never be used for two rows
+                if Bpinv is not None:
+                    b_used = Bpinv @ (scr._scrn[0] - M @ before_int.ravel())
+                    used.append(b_used)
+                    stream = np.concatenate([np.asarray(d_["value"], float).ravel() for d_ in rec.draws[n_init_draws:]]) if len(rec.draws) > n_init_draws else np.zeros(0)
+                    ctx.count("innovations_recovered")
+                    pos = np.where(np.abs(stream - b_used[0]) <= 1e-6 * (1 + abs(b_used[0])))[0]
+                    found = any(p + nint <= len(stream) and np.allclose(stream[p:p + nint], b_used, atol=1e-6 * (1 + float(np.abs(b_used).max()))) for p in pos)
+                    ctx.check(found, "innovation_not_from_own_stream:" + variant, "the innovation of add_row #%d is not a run of numbers drawn from the object's generator" % n_add, wit)
                 ctx.check(np.array_equal(exp[0], scr._scrn[0][:nreq]), "exposed_row0_is_new_row", "row 0 of the exposed screen is not the new row", wit)
         else:
             if op == "read":
@@ -130,6 +149,16 @@ def history(ctx, aotools, variant, nreq, ps, r0, L0, extra, rng, n_ops):
         ctx.check(attr_digest(scr) == base_attrs, "other_attribute_changed:" + op, "an attribute other than the screen / generator changed", wit)
     if n_add > nrows_int + 1:
         ctx.count("histories_longer_than_buffer")
+    if len(used) >= 2:          # every row gets a fresh innovation
+        U = np.array(used)
+        order = np.argsort(U[:, 0])
+        Us = U[order]
+        same = np.where(np.abs(np.diff(Us[:, 0])) <= 1e-7 * (1 + np.abs(Us[:-1, 0])))[0]
+        reused = [int(k) for k in same if np.allclose(Us[k], Us[k + 1], atol=1e-6)]
+        ctx.count("oracle_evals")
+        if reused:
+            a_, b_ = sorted((int(order[reused[0]]), int(order[reused[0] + 1])))
+            ctx.fail("innovation_reused:" + variant, "add_row #%d and #%d used the same innovation vector (of %d rows)" % (a_ + 1, b_ + 1, len(used)), wit)
 
 
 class _FineRegime:
@@ -266,6 +295,8 @@ def run(ctx, spec):
     if spec["shard"] < 6:
         ext = [1e-6, 1e-7, 1e-8, 1e-9, 1e-10, 3e-12][spec["shard"]]
         stability(ctx, aotools, int(rng.integers(6, 14)), 100.0 * ext, 0.2, 100.0, 2, rng, 200)
+    # one long run of nothing but add_row on a small screen (several hundred rows: block-wise bookkeeping must not repeat)
+    history(ctx, aotools, "vk" if spec["shard"] % 2 else "fried", int(rng.integers(4, 9)), 0.05, 0.2, 20.0, 1, rng, 650, all_add=True)
     for s in range(spec["stab"]):
         nx = int(rng.integers(5, 22))
         L0 = float(10 ** rng.uniform(0, 2))
